@@ -9,13 +9,13 @@ CLAIMED = {
 }
 CLAIMED.update({
  "C01": dict(technique="static analysis: effect extraction + lock-step rule L over clang CFG guard sets (definition arrays vs bottom-up caches), cache element link/unlink rules",
-             text="Decides the structural necessary conditions of cache/definition inversion: every grow/erase/clear of a definition array is mirrored on the cache of its sub-kind under the cache guard in every mutator and every deletion mode; link sites in add_*, mode-independent unlink sites in delete_*_core, ownership-guarded resets, compute_* running over deleted-skipping ranges, set_* unlink/link. Not decided: that the pushed values are the right ones.",
+             text="Decides the structural necessary conditions of cache/definition inversion: every grow/erase/clear of a definition array is mirrored on the cache of its sub-kind under the cache guard in every mutator and every deletion mode; link sites in add_*, mode-independent unlink sites in delete_*_core, ownership-guarded resets, compute_* running over deleted-skipping ranges, set_* unlink/link; the linked/unlinked VALUES (halfedge (e,0) at from(e), (e,1) at to(e); halfface (f,0) at every halfedge of f, (f,1) at its opposite; c at every halfface of c) in add_*, delete_*_core, compute_* and set_*; the renumbering after an erase; the relabelling in swap_*_indices; reorder_incident_halffaces replaces a list only by a complete permutation. Not decided: that the pushed values are the right ones.",
              design="3/C01, 2/L"),
  "C02": dict(technique="static analysis: lock-step rule L (definition vs deleted flags vs counters), CFG order/reachability rules for the deletion closure, literal rules for the renumbering helpers",
-             text="Decides: definition/flag/counter lock-step in all four modes, deferred pair, collect_garbage reset/zero/order, closure order and reverse iteration in delete_vertex/edge/face, closure helpers never touching raw arrays, n_logical_*/genus agreement, renumbering constants and placement. Not decided: that survivors keep their definitions.",
+             text="Decides: definition/flag/counter lock-step in all four modes, deferred pair, collect_garbage reset/zero/order, closure order and reverse iteration in delete_vertex/edge/face, closure helpers never touching raw arrays, n_logical_*/genus agreement, renumbering constants and placement, flags and caches travel with a swap, relabelling once per shared entity, leaving deferred mode collects. Not decided: that survivors keep their definitions.",
              design="3/C02, 2/L"),
  "C03": dict(technique="static analysis: lock-step rule L between definition arrays and property notifications incl. position agreement; ResourceManager/PropertyStorage shape rules",
-             text="Decides: every grow/erase/clear of a kind is mirrored by the property notification of that kind at the same position and under the same conditions (both directions); half-kind sizing 2n, erase order, tracker/entity-tag agreement in all template instantiations, default fill, mesh-kind sizing. Not decided: value preservation itself.",
+             text="Decides: every grow/erase/clear of a kind is mirrored by the property notification of that kind at the same position and under the same conditions (both directions); half-kind sizing 2n, erase order, tracker/entity-tag agreement in all template instantiations, default fill on every growth call, mesh-kind sizing, property swap in swap_*_indices, the bool storage swap form (self-swap safe), collapse_edge carries halfedge/halfface/cell properties over. Not decided: value preservation itself.",
              design="3/C03, 2/L"),
  "C17": dict(technique="static analysis: lock-step rule L for the swap effect + guard/dominance rules for the no-op return, processed sets and sibling rewrite branches",
              text="Decides: every swap_K_indices swaps definition, flag, properties (half kinds side by side) and cache under identical conditions; swap_bool saves a bool value, not a vector<bool> proxy; self-swap returns before any effect; processed-set protocol (scope, find/insert key = rewritten entry); rewrite tests in both the cache-guided and linear branches. Not decided: involution / untouched others as behaviour.",
@@ -23,7 +23,7 @@ CLAIMED.update({
 })
 CLAIMED.update({
  "C07": dict(technique="static analysis: interprocedural byte-budget propagation (rule B) through templates/generic lambdas/virtual codecs, guard-based range/result/empty-sequence rules, loop-exit classification, exception-escape reachability with lexical try regions",
-             text="Decides structural necessary conditions of reader memory safety and termination for every byte string: every decoder byte consumption is budgeted before the decoder's creation site; every handle built from a decoded integer is range-checked on that very expression against the right counter (and from below when signed); add_face/add_cell results fail the read; sequence parameters are size-tested before front/back/[k]; every reader loop has a robust exit on every one of its cycles; no non-allocation throw escapes the readers. Not decided: semantic validity of an accepted mesh beyond handle ranges.",
+             text="Decides structural necessary conditions of reader memory safety and termination for every byte string: every decoder byte consumption is budgeted before the decoder's creation site; every handle built from a decoded integer is range-checked on that very expression against the right counter (and from below when signed); add_face/add_cell results fail the read; sequence parameters are size-tested before front/back/[k]; every reader loop has a robust exit on every one of its cycles and a count extracted from the stream is not accepted as the only bound of a loop that keeps extracting; add_face/add_cell reject empty lists unconditionally; the handle encoding of a TOPO chunk is never None; add_edge keeps duplicates in readers; no non-allocation throw escapes the readers. Not decided: semantic validity of an accepted mesh beyond handle ranges.",
              design="3/C07, 2/B"),
  "C18": dict(technique="static analysis: CFG path rules over the ReadState protocol (no success after an error state, re-test after every chunk reader), must-hold guard sets at return Ok, validation must-pass-through table, stream-state rules for reader and writer",
              text="Decides: no path from an error ReadState to a success result; chunk readers leave/guard after an error; callers re-test state_; the file body is read only in state HeaderRead; return Ok requires stream exhausted, EOF chunk seen, header counts equal mesh counts and - vertices being pre-allocated from the header - header n_verts equal to the vertices read from chunks; binary-reader handles are bounded by the *_read_ counters; optional chunks are skipped; header/chunk/span validations present on the CFG; the reader never clears the stream state (sticky failbit + mandatory EOF chunk turn stream failures into errors); the writer returns Ok only under ostream.good() after the last write. Not decided: that every inconsistent header byte is caught (only the listed validations).",
@@ -31,7 +31,7 @@ CLAIMED.update({
 })
 CLAIMED.update({
  "C05": dict(technique="static analysis: protocol conformance of every hand-written iterator/circulator body on the clang CFG (guard facts, dominance, post-dominance), sibling agreement of the six entity iterators",
-             text="Decides shape clauses for all 6 entity iterators x {ctor,++,--} and all circulator classes: step, skip loop, invalidation under exactly the complement of the loop bound, handle refresh on every path; ++/-- three-way outcome with lap >= max_laps resp. lap < 0; delegating circulators synchronise lap/valid/handle; _max_laps forwarded; duplicate removal for set relations; (begin, make_end_circulator(begin)) ranges and end iterators at the iterator's own bound. Not decided: that the collected incident set is the right set.",
+             text="Decides shape clauses for all 6 entity iterators x {ctor,++,--} and all circulator classes: step, skip loop, invalidation under exactly the complement of the loop bound, handle refresh on every path; ++/-- three-way outcome with lap >= max_laps resp. lap < 0; delegating circulators synchronise lap/valid/handle; _max_laps forwarded; duplicate removal for set relations; (begin, make_end_circulator(begin)) ranges and end iterators at the iterator's own bound; collecting constructors leave no loop early (one audited exception); GenericCirculator + / - step in their own direction; the sheet circulator excludes exactly the direction and its opposite. Not decided: that the collected incident set is the right set.",
              design="3/C05"),
  "C20": dict(technique="static analysis: transitive effect analysis over the resolved call graph of all const entry points (mutable members, non-const static storage, const-removing casts, writes to mesh members)",
              text="Sound for the clause: over every repository function reachable from the ~1600 const entry points (kernels, iterators, property handles; property creation excluded as in the statement) there is no access to a mutable member, no non-const static-storage variable, no const-removing cast and no write to a mesh data member; iterators hold the mesh as pointer-to-const. With [res.on.data.races] for const container operations this implies absence of writes to shared state.",
@@ -52,10 +52,10 @@ CLAIMED.update({
 })
 CLAIMED.update({
  "C04": dict(technique="static analysis: pairing rule P (mode switch restored on every CFG path), collect_garbage shape/order rules, must-pass-through for leaving deferred mode, guard/dominance rules over StatusAttrib::garbage_collection, second-pass safety of delete_cell_core",
-             text="Decides: every temporary switch of the deferred-deletion mode is undone on every path; collect_garbage's per-kind reset/zero/order/descending loops and early return; enable_deferred_deletion(false) passes through collect_garbage when the mode was on; StatusAttrib::garbage_collection guards (no double deletion, incidences established before the manifoldness pass, remap under is_valid from maps sized before collection, collection on every path); the second run of delete_cell_core by collect_garbage only resets entries it still owns; incidence recomputation skips pending deletions. Not decided: equivalence with immediate deletion, correctness of the remap.",
+             text="Decides: every temporary switch of the deferred-deletion mode is undone on every path; collect_garbage's per-kind reset/zero/order/descending loops and early return; enable_deferred_deletion(false) passes through collect_garbage when the mode was on; StatusAttrib::garbage_collection guards (no double deletion, incidences established before the manifoldness pass, remap under is_valid from maps sized before collection, collection on every path); the second run of delete_cell_core by collect_garbage only resets entries it still owns; incidence recomputation skips pending deletions; manifoldness pass order faces/edges/vertices; the handle remap keeps the four kinds apart (identity fill, inverse map, sizes, application under is_valid); relabelling and renumbering rules of the swap/erase steps. Not decided: equivalence with immediate deletion, correctness of the remap.",
              design="3/C04, 2/P"),
  "C09": dict(technique="static analysis: must-call trigger rule with guard sets (both kinds, no deletion-mode condition, after the unlink), shape rules over the CFG of reorder_incident_halffaces and adjacent_halfface_in_cell",
-             text="Decides the triggers and the walk's shape: reorder_incident_halffaces is called in add_cell, delete_face_core, delete_cell_core and both enable functions under exactly 'both kinds available', independent of the deletion mode and after the victim is unlinked; forward walk appends, backward walk uses the opposite halfedge and prepends, both are bounded, the mirrored reverse is written to the opposite halfedge, replacement only when complete; adjacent_halfface_in_cell's acceptance condition has all three conjuncts; a trigger in a mutator may only be skipped for lists of fewer than two halffaces. Not decided: that the walk produces the rotational order.",
+             text="Decides the triggers and the walk's shape: reorder_incident_halffaces is called in add_cell, delete_face_core, delete_cell_core and both enable functions under exactly 'both kinds available', independent of the deletion mode and after the victim is unlinked; forward walk appends, backward walk uses the opposite halfedge and prepends, both are bounded, the mirrored reverse is written to the opposite halfedge, replacement only when complete; adjacent_halfface_in_cell's acceptance condition has all three conjuncts; the halfedge-halfface circulator's stepping protocol; relabelling of the lists by index swaps; a trigger in a mutator may only be skipped for lists of fewer than two halffaces. Not decided: that the walk produces the rotational order.",
              design="3/C09"),
 })
 CLAIMED.update({
@@ -74,7 +74,7 @@ CLAIMED.update({
 })
 CLAIMED.update({
  "C06": dict(technique="static analysis: table agreement - writer/reader primitive-operation sequences, the published Kaitai description (parsed on every run), byte-order pairs, width thresholds, sibling readers, ASCII type-name tables, codec registry, pending-deletion guards, type-detection loops",
-             text="Decides the agreement clauses: per structure identical write/read operation sequences and ovmb_size; equality with the .ksy field sequences, magic/reserved contents and enum tables; little-endian byte pairs on both sides; suitable_int_encoding thresholds = limits of the narrowed types and each chunk's encoding chosen from the count of the kind it writes; all three topology readers add handle_offset; typeName specialisations <-> readProperty branches with the same T, entity strings; unique codec names with matching T; every writer refuses pending deletions before its first output; type detection looks at all faces and all cells. Not decided: value equality after a round trip, floating-point printing.",
+             text="Decides the agreement clauses: per structure identical write/read operation sequences and ovmb_size; equality with the .ksy field sequences, magic/reserved contents and enum tables; little-endian byte pairs on both sides; suitable_int_encoding thresholds = limits of the narrowed types and each chunk's encoding chosen from the count of the kind it writes; all three topology readers add handle_offset; typeName specialisations <-> readProperty branches with the same T, entity strings; unique codec names with matching T; every writer refuses pending deletions before its first output; type detection looks at all faces and all cells; WriteBuffers are reset before reuse; the bool codec budgets ceil(n/8) bytes; the reader never rejects the empty PROP spans the writer emits; optional chunks are skipped; readers keep duplicate edges. Not decided: value equality after a round trip, floating-point printing.",
              design="3/C06"),
 })
 CLAIMED.update({
